@@ -368,25 +368,97 @@ def check_source(env, src):
 BUDGET = {"quick": 5000, "thorough": 75000}
 
 
+STALL_SECONDS = 45.0  # wall-clock silence of the worker on ONE source (a C-level regex match cannot be interrupted from Python)
+
+
+def _worker_main(argv):
+    """child process: python -m contracts.c01_fuzz <cfg> <seed> <n> <start>; one JSON line before and after every source"""
+    import json
+    import sys
+    cfg, seed, n, start = argv[0], argv[1], int(argv[2]), int(argv[3])
+    warnings.simplefilter("ignore")
+    env = FUZZ_CONFIGS[cfg]()
+    rnd = random.Random(f"{seed}:{cfg}")
+    g = Gen(rnd, env, cfg)
+    out = sys.stdout
+    for i in range(n):
+        src = g.source()
+        if i < start:
+            continue
+        out.write(json.dumps(["S", i, src]) + "\n")
+        out.flush()
+        r = check_source(env, src)
+        if r is not None:
+            out.write(json.dumps(["D", i, r[0], r[1]]) + "\n")
+            out.flush()
+    out.write(json.dumps(["END", n]) + "\n")
+    out.flush()
+
+
 def fuzz_config(cfg):
     def run(task, tier, seed):
-        env = FUZZ_CONFIGS[cfg]()
-        rnd = random.Random(f"{seed}:{cfg}")
-        g = Gen(rnd, env, cfg)
+        import json
+        import os
+        import select
+        import subprocess
+        import sys
         n = BUDGET.get(tier, BUDGET["quick"])
         found = {}
-        n_tse = n_ok = 0
         t0 = time.time()
         done = 0
-        for i in range(n):
-            src = g.source()
-            done += 1
-            r = check_source(env, src)
-            if r is None:
-                continue
-            key, detail = r
-            if key not in found or len(src) < len(found[key][0]):
-                found[key] = (src, detail)
+        start = 0
+        stalls = 0
+        while start < n and stalls < 3:
+            p = subprocess.Popen([sys.executable, "-W", "ignore", "-m", "contracts.c01_fuzz", cfg, str(seed), str(n), str(start)],
+                                 stdout=subprocess.PIPE, stderr=subprocess.DEVNULL, cwd=os.path.dirname(os.path.dirname(os.path.abspath(__file__))))
+            fd = p.stdout.fileno()
+            buf = b""
+            cur = (start, "")
+            ended = False
+            last = time.time()
+            while True:
+                r, _, _ = select.select([fd], [], [], 1.0)
+                if r:
+                    chunk = os.read(fd, 1 << 16)
+                    if not chunk:
+                        break
+                    last = time.time()
+                    buf += chunk
+                    while b"\n" in buf:
+                        line, buf = buf.split(b"\n", 1)
+                        try:
+                            msg = json.loads(line)
+                        except ValueError:
+                            continue
+                        if msg[0] == "S":
+                            cur = (msg[1], msg[2])
+                            done = max(done, msg[1] + 1)
+                        elif msg[0] == "D":
+                            key, detail = msg[2], msg[3]
+                            if key not in found or len(cur[1]) < len(found[key][0]):
+                                found[key] = (cur[1], detail)
+                        elif msg[0] == "END":
+                            ended = True
+                elif time.time() - last > STALL_SECONDS:
+                    break
+            if ended:
+                p.wait()
+                start = n
+                break
+            # the worker died or stalled on source cur[0]
+            rc = p.poll()
+            p.kill()
+            p.wait()
+            if rc is None:
+                stalls += 1
+                key = "hang:uninterruptible"
+                detail = f"no result within {STALL_SECONDS:.0f} s (not interruptible: inside the regex engine / C code)"
+            else:
+                key = f"worker-died:{rc}"
+                detail = f"the interpreter running the check exited with status {rc}"
+            if key not in found or len(cur[1]) < len(found[key][0]):
+                found[key] = (cur[1], detail)
+            start = cur[0] + 1
         rs = []
         for key, (src, detail) in sorted(found.items()):
             rs.append(Res("C01.bounded.fuzz", "refuted", "native", 0, f"config {cfg}: {src[:200]!r} -> {detail}", "bounded",
@@ -405,12 +477,29 @@ def fuzz_key(res):
 
 
 def replay_fuzz(w):
+    """in a subprocess with a time limit: a hang inside the regex engine cannot be interrupted in-process"""
+    import json
+    import os
+    import subprocess
+    import sys
     cfg = w.get("config", "default")
-    env = FUZZ_CONFIGS.get(cfg, FUZZ_CONFIGS["default"])()
-    r = check_source(env, w.get("source", ""))
+    src = w.get("source", "")
+    code = ("import sys, json, warnings\nwarnings.simplefilter('ignore')\n"
+            "from contracts import c01_fuzz as CF\n"
+            "cfg, src = json.loads(sys.stdin.read())\n"
+            "env = CF.FUZZ_CONFIGS.get(cfg, CF.FUZZ_CONFIGS['default'])()\n"
+            "print(json.dumps(CF.check_source(env, src)))\n")
+    try:
+        p = subprocess.run([sys.executable, "-c", code], input=json.dumps([cfg, src]), capture_output=True, text=True, timeout=STALL_SECONDS,
+                           cwd=os.path.dirname(os.path.dirname(os.path.abspath(__file__))))
+    except subprocess.TimeoutExpired:
+        return (True, f"config {cfg}: {src[:120]!r} -> no result within {STALL_SECONDS:.0f} s")
+    if p.returncode != 0:
+        return (True, f"config {cfg}: {src[:120]!r} -> the interpreter exited with status {p.returncode}: {p.stderr[-200:]}")
+    r = json.loads(p.stdout.strip().splitlines()[-1])
     if r is None:
         return (False, "the source compiles or raises an in-range TemplateSyntaxError")
-    return (True, f"config {cfg}: {w.get('source', '')[:120]!r} -> {r[1]}")
+    return (True, f"config {cfg}: {src[:120]!r} -> {r[1]}")
 
 
 def fuzz_tasks():
@@ -445,3 +534,8 @@ def native_parse_search(w, budget=4000):
             if time.time() - t0 > 60:
                 break
     return (False, f"no failing input found among {n} generated sources")
+
+
+if __name__ == "__main__":
+    import sys as _sys
+    _worker_main(_sys.argv[1:])
